@@ -252,20 +252,21 @@ Section P.
     rewrite H2, Hs. destruct (engine c) as [|m|cs [fmt|m]].
     - split; [discriminate|]. intros H. inversion H. auto.
     - split; discriminate.
-    - destruct (process fmt) as [b|m].
+    - destruct (checked parses (process fmt)) as [b|m].
       + split; intros H; inversion H; auto.
       + split; discriminate.
     - split; discriminate.
   Qed.
 
   (* ------------------------------------------------------------ C07 *)
-  Lemma finalize_parses o fmt bs :
-    (forall b b', process b = inl b' -> parses b' = None) ->
-    finalize o fmt = inl bs -> parses bs = None.
+  Lemma checked_parses b bs : checked parses b = inl bs -> parses bs = None.
+  Proof. unfold checked. destruct b as [b0|m]; [|discriminate]. destruct (parses b0) eqn:E; [discriminate|]. intros H. inversion H; subst. exact E. Qed.
+
+  Lemma finalize_parses o fmt bs : finalize o fmt = inl bs -> parses bs = None.
   Proof.
-    intros Hp. unfold CliFacts.finalize. destruct (o_skip_imports o).
+    unfold CliFacts.finalize. destruct (o_skip_imports o).
     - destruct (parses fmt) eqn:E; [discriminate|]. intros H. inversion H; subst. exact E.
-    - apply Hp.
+    - apply checked_parses.
   Qed.
 
   Lemma emitted_in_list r e bs :
@@ -275,10 +276,9 @@ Section P.
   Qed.
 
   Lemma emitted_parses o ts e bs :
-    (forall b b', process b = inl b' -> parses b' = None) ->
     In e (r_events (run o ts)) -> emitted e = Some bs -> parses bs = None.
   Proof.
-    intros Hp He Hb. apply run_events_in in He as [i [t [_ He]]].
+    intros He Hb. apply run_events_in in He as [i [t [_ He]]].
     pose proof (emitted_in_list _ _ _ He Hb) as Hin. rewrite emitted_solo in Hin.
     destruct (t_read t) as [c|]; [|destruct Hin].
     destruct (parses c); [destruct Hin|].
@@ -301,7 +301,7 @@ Section P.
     assert (exists m', finalize o fmt = inr m') as [m' H5].
     { unfold CliFacts.finalize. destruct (o_skip_imports o).
       - rewrite Hbad. eauto.
-      - apply (Hrej _ _ Hbad). }
+      - destruct (Hrej _ _ Hbad) as [m' E]. rewrite E. cbn [checked]. eauto. }
     rewrite (run_events_of _ _ _ _ _ ts i t Hn).
     pose proof (solo_reformat_err _ _ _ _ _ i _ _ _ _ _ H1 H2 H3 H4 H5) as S.
     assert (In (ErrReformat (t_abs t) m') (all_errors (run o ts))) as Hin.
@@ -311,13 +311,12 @@ Section P.
   Qed.
 
   Lemma api_parses src bs :
-    (forall b b', process b = inl b' -> parses b' = None) ->
     api_apply parses engine process src = inl bs -> parses bs = None.
   Proof.
-    intros Hp. unfold api_apply. destruct (parses src) eqn:E; [discriminate|].
+    unfold api_apply. destruct (parses src) eqn:E; [discriminate|].
     destruct (engine src) as [| |cs [fmt|]]; try discriminate.
     - intros H. inversion H; subst. exact E.
-    - apply Hp.
+    - apply checked_parses.
   Qed.
 
   (* ------------------------------------------------------------ C14 *)
